@@ -278,6 +278,11 @@ func (e *Extractor) Pages(pages ...int) *Extractor {
 //	text, _, err := tabula.Open("doc.pdf").PageRange(5, 10).Text()
 func (e *Extractor) PageRange(start, end int) *Extractor {
 	newExt := e.clone()
+	if start > end && newExt.err == nil {
+		// A reversed range names no page; left alone it would add nothing and an
+		// otherwise empty selection would then mean "all pages".
+		newExt.err = fmt.Errorf("invalid page range: start %d is after end %d", start, end)
+	}
 	for i := start; i <= end; i++ {
 		newExt.options.pages = append(newExt.options.pages, i)
 	}
